@@ -211,7 +211,7 @@ PROPS["C09"] = {
     "props_files": ["Props/C09.v"],
     "go_tests": ["TestVerifPolicy"],
     "go_tests_root": ["TestVerifRootAdmission"],
-    "level": "proof",
+    "level": "other",
     "rule": "policy correspondence as for C07 (the admission decision is part of every replayed Set); plus MEASUREMENTS on real caches through the public builders: "
             "hot set (10/30/50% of MaxSize) read with a 50/80% share while fresh never-read keys are inserted, 40*MaxSize operations, hit ratio of the hot set over the last quarter "
             "(threshold 0.90; observed minimum 0.95-0.98); Zipf(0.8/1.0/1.2) traces of 60*MaxSize operations over a universe of 20*MaxSize keys against an LRU of the same size "
@@ -229,22 +229,23 @@ PROPS["C09"] = {
 
 PROPS["C19"] = {
     "props_files": ["Props/C19.v"],
-    "go_tests": [],
+    "go_tests": ["TestVerifRBMutex"],
     "race_tests": ["TestVerifRace", "TestVerifCountersConcurrent", "TestVerifWaitConcurrent", "TestVerifHybridSlow"],
     "level": "proof",
-    "rule": "lock table regenerated from the sources on every run (one row per field access reachable from the public API); in addition, as a search for a failing schedule only, "
+    "rule": "lock table regenerated from the sources on every run (one row per field access reachable from the public API); the real RBMutex with 1..16 slots stepped one atomic operation at a time by 2..5 goroutines "
+            "under random schedules (sticky bursts, reluctant holders) and compared with the model after every step, with a direct writer/reader overlap monitor; in addition, as a search for a failing schedule only, "
             "the concurrent harnesses (all public operations of plain, loading and hybrid stores incl. Persist, Range, Wait, Close with a removal listener) are built with -race and run",
     "trusted_base": [KERNEL, "go/lockscrape (go/ssa based must-lockset analysis: intraprocedural dataflow, entry locksets as greatest fixpoint over call sites, function values resolved through "
                      "struct fields and parameters, reachability from the root package) - a bug there can hide an unguarded access",
                      "type-level abstraction: accesses and locks are named Type.field; that the lock instance belongs to the object accessed is not checked",
                      "classification tables in go/lockscrape/main.go: confined types and fields (thread-owned or handed over by channel / atomic publication), ownership sites "
                      "(entry already removed from its shard map), constructors (New* and helpers called only from them), entry-pool-only branches",
-                     "Go memory model, sync.Mutex / sync.RWMutex, RBMutex (taken as a reader/writer lock), sync/atomic"],
+                     "Go memory model (sequentially consistent sync/atomic), sync.Mutex / sync.RWMutex taken as correct locks; RBMutex is no longer trusted: its Lock/RLock/RUnlock/Unlock are modelled per atomic operation (Model/RBMutex.v), proved exclusive for every schedule, and the real code is stepped against the model through hook H8 (TryLock / TryRLock of RBMutex are not used by the cache and not modelled)"],
     "assumptions": ["entry pool disabled", "the race detector runs are a search aid, not part of the proof"],
     "impl_only_traces": ["race", "counters", "waitconc", "hybridslow"],
     "monitor_tags": ["C19"],
     "timeout": {"quick": 900, "thorough": 2400},
-    "explanation": "lockset theorem over a table scraped from the sources; discipline of the current table checked by computation in Coq; -race runs as search",
+    "explanation": "lockset theorem over a table scraped from the sources; discipline of the current table checked by computation in Coq; mutual exclusion of the reader-biased shard lock proved for all schedules and the real lock stepped against that model; -race runs as search",
 }
 
 
